@@ -483,6 +483,7 @@ func checkC11(c *Check) {
 	c.Obl(len(m.RfForm) == 4 && len(m.RfFormDyn) == 0, "C11.R1", "form/exact", P.Pos(m.RfExchange.Pos()), "exactly the four members", fmt.Sprintf("refresh form members: %v", tableKeys(m.RfForm)))
 	okURL := exchangeURLOK(R, m.RfExchange)
 	c.Obl(okURL, "C11.R1", "url", P.Pos(m.RfExchange.Pos()), "sent to the configured token URI", "the refresh request is not sent to the configured token URI")
+	exchangeIsSentOnce(c, "C11.R1", R)
 	// guard at the call site
 	fs := FactsOf(pr).At(site)
 	expired := false
@@ -1190,4 +1191,43 @@ func tokenTypeDecisive(c *Check, rule string, v *ssa.Function) {
 		c.Obl(decisive, rule, "token-type-decisive/"+fnKey(v), P.Pos(cc.Pos()), "no accepting return without token_type having been found to be Bearer",
 			"an accepting return of "+fnKey(hf)+" is reachable without the token_type comparison having answered true (a missing token_type is accepted)")
 	}
+}
+
+// exchangeIsSentOnce: a token request (authorization-code or refresh grant) is not idempotent — the IdP
+// consumes the code / rotates the refresh token when it processes it. The exchange function sends it at
+// most once per activation: no http.Client.Do (or own RoundTrip forwarding) is reachable from another one,
+// so a reply that was lost is never answered with a replay of a superseded credential.
+func exchangeIsSentOnce(c *Check, rule string, R *Roles) {
+	P := c.P
+	ex := R.TokenExchange
+	if !c.Anchor(rule, "token exchange function", ex != nil) {
+		return
+	}
+	var sends []ssa.Instruction
+	for _, f := range deepFuncs(ex, 2) {
+		if !isOwnPath(pkgPathOf(f)) {
+			continue
+		}
+		for _, ci := range allCalls(f) {
+			if isCallToAny(ci, "net/http.Client.Do", "net/http.Client.Post", "net/http.Client.PostForm", "net/http.Client.Get") {
+				sends = append(sends, ci)
+			}
+		}
+	}
+	bad := ""
+	isSend := func(i ssa.Instruction) bool {
+		for _, s := range sends {
+			if s == i {
+				return true
+			}
+		}
+		return false
+	}
+	for _, s := range sends {
+		if hit := reachAvoiding(s, nil, isSend, nil); hit != nil {
+			bad = "after the send at " + posOf(P, s) + " another send is reachable at " + posOf(P, hit)
+		}
+	}
+	c.Obl(len(sends) >= 1 && bad == "", rule, "exchange-is-sent-once", P.Pos(ex.Pos()), fmt.Sprintf("%d send site(s) in the exchange function, none reachable from another", len(sends)),
+		"the token request can be sent twice in one exchange ("+bad+"): a grant the IdP already processed is replayed with a consumed code or a superseded refresh token")
 }
